@@ -1140,7 +1140,7 @@ def correspond(ctx):
         rq, ex = model_requests(o)
         # a few random schedules of the model on the same project, all invariants evaluated at every step
         extra = []
-        if ctx.tier != "quick" or (n_explore < 12 and ctx.time_left() > 0.1 * ctx.budget):
+        if n_explore < ctx.scale(12, 120) and ctx.time_left() > 0.1 * ctx.budget:
             n_explore += 1
             extra = [{"op": "explore", "seed": ctx.seed * 7919 + len(plan), "runs": ctx.scale(6, 40), "maxsteps": 3000,
                       "failmod": fm, "takes": 3} for fm in (0, 3)]
@@ -1153,7 +1153,13 @@ def correspond(ctx):
     if not reqs:
         ctx.skip("correspondence: no implementation trace available")
         return
-    replies = ctx.lean(DRIVER, reqs, timeout=max(60, ctx.time_left() + 60))
+    import subprocess as _sp
+    try:
+        replies = ctx.lean(DRIVER, reqs, timeout=max(900, ctx.time_left() + 600))
+    except _sp.TimeoutExpired:
+        # a slow machine is not a verdict about the property
+        ctx.skip("correspondence: model driver did not finish in time (%d requests)" % len(reqs))
+        return
     pos = 0
     for kind, c, o, rq, ex, n, nx in plan:
         rp = replies[pos:pos + n]
